@@ -484,7 +484,7 @@ def _shape_pick(r, idx, nshape):
     return r[idx]
 
 
-@case("C04", "lift.shapes.lattice", [], kind="bounded",
+@case("C04", "lift.shapes.lattice", [], kind="bounded", also=("C01",),
       functions=["geometer.point._join_meet_duality", "geometer.point.SubspaceTensor", "geometer.point.LineTensor", "geometer.point.PlaneTensor", "geometer.operators", "geometer.curve.QuadricTensor",
                  "geometer.transformation.TransformationTensor", "geometer.shapes.SegmentTensor", "geometer.shapes.PolygonTensor"],
       bound="98 public operations x collection shapes (1,), (3,), (2,2), (3,1), (1,2) x argument mixes (all collections; one argument single, broadcasting) x every position; "
@@ -537,14 +537,13 @@ def lift_shapes_lattice(ctx):
                 if degenerate or any(_has_nan(v) for v in wants.values()):
                     continue
                 clause, excuse = "lift:%s" % name, None
+                cprop = ("C04", "C01") if name.startswith(("join(", "meet(")) else None
                 if kinds[0] == "T" and len(kinds) == 2 and kinds[1] != "T" and mix == (True, False):
                     clause, excuse = "lift:%s:collection-of-transformations-x-single-object" % name, ("KF-C04-1", None)
-                if name == "G.contains(P).3d" and mix == (True, False):
-                    clause, excuse = "lift:%s:polygon-collection-x-single-point" % name, ("KF-C04-2", None)
                 try:
                     res = fn(*args)
                 except Exception as e:
-                    ctx.ensure(clause, False, witness=dict(w, exception="%s: %s" % (type(e).__name__, str(e)[:120])), excuse=excuse)
+                    ctx.ensure(clause, False, witness=dict(w, exception="%s: %s" % (type(e).__name__, str(e)[:120])), excuse=excuse, prop=cprop)
                     continue
                 ok = True
                 if name in _FLAT_OPS:
@@ -557,7 +556,7 @@ def lift_shapes_lattice(ctx):
                         w["exception"] = "%s: %s" % (type(e).__name__, str(e)[:120])
                     if not ok:
                         w["got"], w["want"] = str(res)[:200], str(want_all)[:200]
-                    ctx.ensure(clause, ok, witness=w, excuse=excuse)
+                    ctx.ensure(clause, ok, witness=w, excuse=excuse, prop=cprop)
                     continue
                 degenerate_value = {"angle(L,L).2d": 0.0, "crossratio(L,L,L,L,P).2d": 1.0}.get(name)
                 coincident = []
@@ -577,7 +576,7 @@ def lift_shapes_lattice(ctx):
                         ok = False
                         w["position"], w["exception"] = idx, "%s: %s" % (type(e).__name__, str(e)[:120])
                         break
-                ctx.ensure(clause, ok, witness=w, excuse=excuse)
+                ctx.ensure(clause, ok, witness=w, excuse=excuse, prop=cprop)
                 if coincident:
                     ctx.ensure("lift:%s:positions-with-coincident-first-arguments" % name, False, witness=dict(w, positions=coincident, got="nan", want=degenerate_value),
                                excuse=("KF-C04-3", None))
